@@ -257,7 +257,7 @@ def redirect_entry(u: U):
     _run(u, entry_only=True)
 
 
-@unit("C17", "redirect.step", functions=[f"{MOD}:ClientSession._request"], timeout_ms=20000, max_paths=60000)
+@unit("C17", "redirect.step", functions=[f"{MOD}:ClientSession._request"], timeout_ms=20000, max_paths=60000, also=("C18",))
 def redirect_step(u: U):
     """ClientSession._request from an arbitrary state satisfying I17 at the head of the redirect loop: one hop - every
     request object built obeys the credential, scheme, count clauses; a redirect re-establishes I17 with the
@@ -382,7 +382,8 @@ def _run(u: U, entry_only: bool, canary: bool = False):
             G["last_resp"] = r
             return r
 
-        return SAwait(result=result, raises=(C.ClientOSError,), name="send")
+        return SAwait(result=result, raises=(C.ClientOSError, C.ServerDisconnectedError, C.ServerTimeoutError), name="send",
+                      on_raise=lambda e: G.__setitem__("send_error", e))
 
     def URLctor(x, encoded=False):
         k = u.choose(3, "location.parse")
@@ -529,6 +530,16 @@ class _LazyHost:
 
 def _table(u, G, L):
     """at the back edge after a redirect: the method/body table and the history clause"""
+    err = G.get("send_error")
+    if err is not None:
+        # the loop goes round again although sending / reading the response head failed: a retry
+        u.check("C18.total.timeout_error_is_final", not isinstance(err, asyncio.TimeoutError),
+                "a request that failed with a timeout (sock_read / ServerTimeoutError) is not silently sent again: the "
+                "time bound the caller configured would double and the peer would see the request twice",
+                witness={"error": type(err).__name__})
+        u.check("C17.retry.only_lost_connections", type(err).__name__ in ("ClientOSError", "ServerDisconnectedError"),
+                "only a lost (stale keep-alive) connection is retried, once, for idempotent methods",
+                witness={"error": type(err).__name__})
     r = G.get("last_resp")
     if r is None or not G["requests"]:
         return
